@@ -615,6 +615,10 @@ impl ErrorDiagnostic for ResolverDiagnostic<'_, RuntimeError> {
             ),
         }
 
+        if self.error.backtrace.is_empty() {
+            return diag;
+        }
+
         diag.push(
             Diagnostic::help()
                 .with_message("Backtrace:")
